@@ -76,6 +76,10 @@ Inductive item :=
 | ISub (cname : option string) (auto_dash : bool) (config : tree) (items : list item)
        (bind : option string) (default : bool).
 
+(** A listing row: indentation depth, displayed name, displayed aliases, and
+    the task shown (None for a collection row). *)
+Definition row := (nat * string * list string * option nat)%type.
+
 Definition opt_str_eqb (a b : option string) : bool :=
   match a, b with
   | Some x, Some y => String.eqb x y
